@@ -337,15 +337,16 @@ def _xfilter(accumulator, test_range, condition, operating_range):
             if condition.startswith(k) and condition != k:
                 operator, condition = k, condition[len(k):]
                 break
-        if operator == '=':
+        if operator in ('=', '<>'):
             it = _re_condition.findall(condition)
             if it:
                 _ = lambda v: re.escape(v.replace('~?', '?').replace('~*', '*'))
                 match = re.compile(''.join(sum(zip(
                     map(_, _re_condition.split(condition)),
-                    tuple(map(lambda v: '.%s' % v, it)) + ('',)
-                ), ()))).match
-                f = lambda v: isinstance(v, str) and bool(match(v))
+                    tuple({'?': '.', '*': '.*'}[v] for v in it) + ('',)
+                ), ())), re.IGNORECASE | re.DOTALL).fullmatch
+                eq = operator == '='
+                f = lambda v: isinstance(v, str) and bool(match(v)) == eq
                 b = np.vectorize(f, otypes=[bool])(test_range['raw'])
                 try:
                     return accumulator(operating_range[b])
@@ -369,9 +370,16 @@ def _xfilter(accumulator, test_range, condition, operating_range):
     from .operators import _get_type_id
     type_id, operator = _get_type_id(condition), LOGIC_OPERATORS[operator]
 
+    if isinstance(condition, str):
+        condition = condition.upper()  # Text is compared ignoring the case.
+
     @functools.lru_cache()
     def check(value):
-        return _get_type_id(value) == type_id and operator(value, condition)
+        if _get_type_id(value) != type_id:
+            return False
+        if isinstance(value, str):
+            value = value.upper()
+        return operator(value, condition)
 
     if is_number(condition):
         if 'num' not in test_range:
